@@ -627,11 +627,43 @@ def oracle_C09(L, K, lines, steps, spec):
     return v[:5]
 
 
+def oracle_C06_relocation(L, K, lines, steps, spec):
+    """relocation goes through the value type's own copy/move constructor unless the type
+    is trivially copyable: a growing reserve / a copy must report one move/copy construction
+    per stored object of a non-trivially-constructible type"""
+    v = []
+    if all(not lay.ntc(p) for p in L):
+        return v
+    for i in range(1, min(len(steps), len(spec))):
+        sp = spec[i]
+        op, a = sp["op"], sp["args"]
+        if op == "reserve":
+            before = spec[i - 1]["slots"].get(a[0])
+            if before is None or a[1] <= before.cap:
+                continue
+            src, kinds = before, ("MC",)
+        elif op in ("copyctor", "copyassign") and a[0] != a[1]:
+            src, kinds = spec[i - 1]["slots"].get(a[1]), ("CC",)
+        else:
+            continue
+        if src is None:
+            continue
+        want = sum(len(f) for t in src.elems for f, p in zip(t, L) if lay.ntc(p))
+        got = sum(1 for e in steps[i]["events"] if e[0] in kinds)
+        if got != want:
+            v.append("step %d %s: %d objects of non-trivially-constructible types had to be relocated through their constructor, %d %s events seen" % (i, op, want, got, "/".join(kinds)))
+    return v
+
+
 def oracle_C06(L, K, lines, steps, spec):
     """live instrumented objects (constructed - destroyed) are exactly the objects of
     non-trivial fields of the logically held elements"""
-    v = []
-    if lay.all_triv(L):
+    v = oracle_C06_relocation(L, K, lines, steps, spec)
+    if v:
+        return v[:5]
+    if lay.all_triv(L) or any(p.ty == lay.TTRKC for p in L):
+        # objects of trivially destructible instrumented types never report their end of
+        # life: for such lists the event streams are compared with the model's only
         return v
     live = {}
     for i, (st, sp) in enumerate(zip(steps, spec)):
